@@ -227,20 +227,38 @@ def f64_copysign(x: ir.f64, y: ir.f64) -> ir.f64:
     return math.copysign(x, y)
 
 
-def f32_min(x: ir.f32, y: ir.f32) -> ir.f32:
+def _float_min(x, y):
+    """Minimum: NaN if either operand is NaN, and -0.0 is below +0.0"""
+    if math.isnan(x) or math.isnan(y):
+        return math.nan
+    if x == y:
+        return x if math.copysign(1.0, x) < 0 else y
     return min(x, y)
+
+
+def _float_max(x, y):
+    """Maximum: NaN if either operand is NaN, and +0.0 is above -0.0"""
+    if math.isnan(x) or math.isnan(y):
+        return math.nan
+    if x == y:
+        return x if math.copysign(1.0, x) > 0 else y
+    return max(x, y)
+
+
+def f32_min(x: ir.f32, y: ir.f32) -> ir.f32:
+    return _float_min(x, y)
 
 
 def f64_min(x: ir.f64, y: ir.f64) -> ir.f64:
-    return min(x, y)
+    return _float_min(x, y)
 
 
 def f32_max(x: ir.f32, y: ir.f32) -> ir.f32:
-    return max(x, y)
+    return _float_max(x, y)
 
 
 def f64_max(x: ir.f64, y: ir.f64) -> ir.f64:
-    return max(x, y)
+    return _float_max(x, y)
 
 
 def f32_abs(x: ir.f32) -> ir.f32:
